@@ -837,6 +837,245 @@ def run_else_layouts(res, tier, cases, one):
                                                             'sections of the block say %r' % (ns, got, want)})
 
 
+# --------------------------------------------------------------------------- attribute VALUES: the prefix of in / tree
+
+ASCII_LETTERS = 'abcdefghijklmnopqrstuvwxyzABCDEFGHIJKLMNOPQRSTUVWXYZ'
+NAME_TAIL = ASCII_LETTERS + '0123456789_'
+# the four non-ASCII characters that "ignoring case" maps onto an ASCII letter (dotted capital I, dotless i, long s,
+# Kelvin sign); whether a name spelled with them is "simple" is not decided by the property's text: no expectation
+CASE_EQUIV = 'İıſK'
+
+
+def is_simple_name(s):
+    """the documented rule for a prefix: an ASCII letter followed by ASCII letters, digits and underscores"""
+    return s != '' and s[0] in ASCII_LETTERS and all(c in NAME_TAIL for c in s)
+
+
+_ALPHABET = {}
+
+
+def value_alphabet():
+    """characters by kind, ASCII and not: what may be typed into an attribute value.  Non-ASCII kinds come from the
+    Unicode categories (letters of every script incl. full-width and mathematical ones, decimal digits and other
+    numbers, combining marks, connector punctuation -- everything a programming language's notion of "identifier"
+    lets in --, symbols, spaces / controls / format characters)."""
+    import unicodedata
+    if _ALPHABET:
+        return _ALPHABET
+    A = {'letter': [], 'digit': [], 'mark': [], 'connector': [], 'symbol': [], 'space': []}
+    ranges = [(0x80, 0x3100), (0xa000, 0xa4d0), (0xa720, 0xa800), (0xfb00, 0xfb50), (0xfe20, 0xfe50),
+              (0xff00, 0xfff0), (0x10000, 0x10100), (0x10400, 0x10450), (0x1d400, 0x1d800), (0x1f600, 0x1f610),
+              (0xe0100, 0xe0110)]
+    for lo, hi in ranges:
+        for c in range(lo, hi):
+            ch = chr(c)
+            cat = unicodedata.category(ch)
+            if ch in CASE_EQUIV or cat in ('Cs', 'Cn', 'Co'):
+                continue
+            if cat[0] == 'L' or cat == 'Nl':
+                A['letter'].append(ch)
+            elif cat[0] == 'N':
+                A['digit'].append(ch)
+            elif cat[0] == 'M':
+                A['mark'].append(ch)
+            elif cat == 'Pc':
+                A['connector'].append(ch)
+            elif cat[0] in 'SP':
+                A['symbol'].append(ch)
+            else:
+                A['space'].append(ch)
+    # ASCII: punctuation that can stand in a value in every syntax (no quote, no tag terminator), and white space /
+    # control characters (in a quoted value only)
+    A['punct'] = [c for c in '!#$%&\'*+,-./:;=?@[\\]^`{|}~' ]
+    A['ctrl'] = [chr(c) for c in range(0, 33)] + ['\x7f']
+    _ALPHABET.update(A)
+    return A
+
+
+PREFIX_SHAPES = (['simple', 'simple-upper', 'simple-long', 'underscore-first', 'underscore-only', 'digit-first',
+                  'all-foreign', 'case-equiv']
+                 + ['%s@%s' % (g, pos) for g in ('letter', 'digit', 'mark', 'connector', 'symbol', 'space', 'punct',
+                                                 'ctrl')
+                    for pos in ('first', 'inside', 'last')])
+
+
+def gen_prefix_value(r, shape):
+    A = value_alphabet()
+
+    def simple(lo=1, hi=6):
+        return r.choice(ASCII_LETTERS) + ''.join(r.choice(NAME_TAIL) for _ in range(r.randint(lo, hi) - 1))
+    if shape == 'simple':
+        return simple()
+    if shape == 'simple-upper':
+        return simple().upper()
+    if shape == 'simple-long':
+        return simple(20, 60)
+    if shape == 'underscore-first':
+        return '_' * r.randint(1, 2) + ''.join(r.choice(NAME_TAIL) for _ in range(r.randint(1, 5)))
+    if shape == 'underscore-only':
+        return '_' * r.randint(1, 3)
+    if shape == 'digit-first':
+        return r.choice('0123456789') + ''.join(r.choice(NAME_TAIL) for _ in range(r.randint(0, 5)))
+    if shape == 'all-foreign':
+        return ''.join(r.choice(A[r.choice(['letter', 'letter', 'digit', 'mark', 'connector'])])
+                       for _ in range(r.randint(1, 4)))
+    if shape == 'case-equiv':
+        base = simple(2, 5)
+        i = r.randrange(len(base))
+        return base[:i] + r.choice(CASE_EQUIV) + base[i + 1:]
+    group, pos = shape.split('@')
+    ch = r.choice(A[group]) * r.choice([1, 1, 1, 2])
+    base = simple(2, 6)
+    keep = r.random() < 0.5         # inserted next to the characters of the name / in place of one of them
+    if pos == 'first':
+        return ch + (base if keep else base[1:])
+    if pos == 'last':
+        return (base if keep else base[:-1]) + ch
+    i = r.randint(1, len(base) - 1)
+    return base[:i] + ch + base[i if keep else i + 1:]
+
+
+# (block tag, its arguments with %(P)s where the prefix attribute goes, what the body renders by construction or None)
+PREFIX_CONTEXTS = [
+    ('in', 'seq %(P)s', 'all'),
+    ('in', 'seq %(P)s size=2 orphan=0', 'first2'),
+    ('in', '%(P)s name=seq', 'all'),
+    ('in', 'expr="seq" %(P)s', 'all'),
+    ('in', 'seq reverse %(P)s', None),
+    ('in', 'seq mapping %(P)s', None),
+    ('in', 'seq sort=k %(P)s no_push_item', None),
+    ('in', 'seq start=2 %(P)s', None),
+    ('tree', 'obj %(P)s', None),
+    ('tree', 'obj branches=kids %(P)s nowrap', None),
+    ('tree', 'expr="obj" %(P)s sort=id', None),
+]
+
+
+def gen_prefix_case(r, syn, ctx, shape):
+    """-> (source, value, offset of the tag that carries the prefix, expected rendering or None)"""
+    block, argt, rend = ctx
+    v = gen_prefix_value(r, shape)
+    quoted = r.random() < 0.5 or any(c <= ' ' or c in '="' or c.isspace() for c in v) or v == ''
+    attr = r.choice(['prefix', 'prefix', 'PREFIX', 'Prefix']) + '=' + ('"%s"' % v if quoted else v)
+    sep = r.choice([' ', ' ', '\n', '\t', '  '])
+    args = ' ' + sep.join(attr if w == '%(P)s' else w for w in argt.split(' '))
+    if syn == 'epfs' and args.lstrip().startswith('"'):
+        args = '  ' + args.lstrip()
+    pre = r.choice(['', 'head\n', 'a\n\nb ', '\n', 'x\r\ny\n'])
+    wrap = r.random() < 0.3
+    shown = pre                 # what the text before the tag renders as (a true `if` around it shows its body)
+    if wrap:
+        w = r.choice(['', 'w ', 'w\nv '])
+        pre += _ltag(syn, 'o', 'if', ' flag') + w
+        shown += w
+    off = len(pre)
+    want = None
+    if block == 'in':
+        # the body names the prefix variables when the prefix is a simple name; else (the var tags would be faulty
+        # themselves, and the body is compiled before the block) the standard sequence variables
+        vi, vx = (v + '_item', v + '_index') if is_simple_name(v) else ('sequence-item', 'sequence-index')
+        body = '[' + _ltag(syn, 'o', 'var', ' ' + vi).replace(')[', ')s') + ':' + \
+               _ltag(syn, 'o', 'var', ' ' + vx).replace(')[', ')s') + ']'
+        els = r.random() < 0.3
+        src = pre + _ltag(syn, 'o', 'in', args) + body + (_ltag(syn, 'o', 'else') + 'none' if els else '') + \
+            _ltag(syn, 'c', 'in')
+        if rend:
+            items = ['a', 'b', 'c']
+            want = ''.join('[%s:%d]' % (x, i) for i, x in enumerate(items if rend == 'all' else items[:2]))
+    else:
+        src = pre + _ltag(syn, 'o', 'tree', args) + 'leaf' + _ltag(syn, 'c', 'tree')
+    post = r.choice(['', ' tail', ' z\n'])          # (a line feed right after an end tag belongs to the tag)
+    if wrap:
+        src += _ltag(syn, 'c', 'if')
+    src += post
+    if want is not None:
+        want = shown + want + post
+    return src, v, off, want
+
+
+# attribute values that no lexical rule restricts at compile time: whatever is typed there, the source is grammatical
+FREE_VALUE_TAGS = [('s', 'var', 'x null=%s'), ('s', 'var', 'x fmt=%s'), ('s', 'var', 'x missing=%s'),
+                   ('o', 'in', 'seq sort=%s'), ('o', 'in', 'seq size=%s'), ('o', 'in', 'seq start=%s'),
+                   ('o', 'with', 'x mapping=%s'), ('o', 'let', 'a=%s')]
+
+
+def run_attribute_values(res, tier, cases, one):
+    """(k) the prefix attribute of in / tree over every kind of value (see PREFIX_SHAPES) x every position of the
+    attribute x spelling / quoting / separators x three syntaxes: accepted if and only if the value is a simple name
+    (reference: is_simple_name), the rejection is a ParseError naming the in / tree tag on its line, an accepted
+    in block renders its prefix variables; the same values where no rule restricts them: must compile"""
+    from DocumentTemplate import HTML, String
+    r = common.rng('C06-attrval')
+    have_tree = {'html': 'tree' in HTML.commands, 'epfs': 'tree' in String.commands}
+    for rep in range(3 if tier == 'quick' else 40):
+        for syn in ('dtml', 'ssi', 'epfs'):
+            kind = 'epfs' if syn == 'epfs' else 'html'
+            for ctx in PREFIX_CONTEXTS:
+                for shape in PREFIX_SHAPES:
+                    src, v, off, want = gen_prefix_case(r, syn, ctx, shape)
+                    if (syn == 'dtml' and ('>' in v or '<' in v)) or (syn == 'ssi' and '>' in v) or \
+                            (syn == 'epfs' and ')' in v):
+                        continue
+                    simple = is_simple_name(v)
+                    if v[-1:] == '\n' and is_simple_name(v[:-1]) or any(c in CASE_EQUIV for c in v):
+                        # a simple name + one line feed at the very end of a quoted value; a name spelled with a
+                        # character that is an ASCII letter "ignoring case": the text does not decide these
+                        origin = 'attrval-open'
+                    elif ctx[0] == 'tree' and not have_tree[kind]:
+                        origin = 'attrval-bad'      # tree is not a tag of this template class: unknown tag
+                        simple = False
+                    else:
+                        origin = 'attrval-ok' if simple else 'attrval-bad'
+                    cases.append((kind, src, origin))
+                    rr = one(kind, src, origin)
+                    res.count('prefix-shape=' + shape.split('@')[0])
+                    res.count('prefix-verdict=%s/%s' % (origin, rr['status']))
+                    case = {'syntax': kind, 'src': src, 'origin': origin, 'prefix': v}
+                    if origin == 'attrval-open':
+                        continue
+                    if simple and rr['status'] != 'ok':
+                        res.oracle_fail.append({'case': case, 'what': 'the prefix %r is a simple name (ASCII letter, '
+                                                'then ASCII letters / digits / underscores) but the source was '
+                                                'rejected: %r' % (v, rr)})
+                    if not simple and rr['status'] == 'ok':
+                        res.oracle_fail.append({'case': case, 'what': 'the prefix %r is not a simple name (ASCII '
+                                                'letter, then ASCII letters / digits / underscores) but the source '
+                                                'was accepted' % (v,)})
+                    if not simple and rr['status'] == 'parse-error' and rr['line'] is not None \
+                            and (ctx[0] != 'tree' or have_tree[kind]):
+                        lo = 1 + src.count('\n', 0, off)
+                        if rr['line'] != lo or not src.startswith(rr['tag'] or '\0', off):
+                            res.oracle_fail.append({'case': case, 'what': 'the tag with the non-simple prefix starts '
+                                                    'at offset %d on line %d; the message names %r on line %r'
+                                                    % (off, lo, rr['tag'], rr['line'])})
+                    if simple and rr['status'] == 'ok' and want is not None:
+                        try:
+                            got = (String if kind == 'epfs' else HTML)(src)(seq=['a', 'b', 'c'], flag=1)
+                        except Exception as e:  # noqa
+                            got = 'raised %r' % (e,)
+                        res.evaluations += 1
+                        if got != want:
+                            res.oracle_fail.append({'case': case, 'what': 'rendering over [a, b, c] gives %r; the '
+                                                    'variables %s_item / %s_index say %r' % (got, v, v, want)})
+            # the same kinds of value where nothing restricts them
+            for k_, name, argt in FREE_VALUE_TAGS:
+                for shape in PREFIX_SHAPES:
+                    v = gen_prefix_value(r, shape)
+                    if '>' in v or '<' in v or ')' in v or '"' in v:
+                        continue
+                    quoted = any(c <= ' ' or c in '="' or c.isspace() for c in v) or r.random() < 0.5
+                    if name == 'let' and quoted:
+                        continue        # a quoted value of let is a Python expression: another rule
+                    args = ' ' + argt % ('"%s"' % v if quoted else v)
+                    if k_ == 's':
+                        src = 'p\n' + _ltag(syn, 'o', name, args).replace(')[', ')s') + 'q'
+                    else:
+                        src = 'p\n' + _ltag(syn, 'o', name, args) + 'body' + _ltag(syn, 'c', name) + 'q'
+                    cases.append((kind, src, 'valid'))
+                    one(kind, src, 'valid')
+                    res.count('free-value=%s' % argt.split('=')[0].split()[-1])
+
+
 # --------------------------------------------------------------------------- error location under every kind of text
 
 def odd_chars():
@@ -948,7 +1187,18 @@ def run(res, tier, have_driver):
                 '(j) every grammar fault x three syntaxes after a prelude of text lines, valid tags with quoted '
                 'attribute values and comment blocks sprinkled with every control / format / space / separator '
                 'character below U+3100 (CR, VT, FF, FS/GS/RS, NEL, NBSP, U+2028/9 ...): rejected, reported line = '
-                '1 + number of line feeds before the faulty part' % (PUMP_TIMEOUT if tier == 'quick' else PUMP_TIMEOUT_THOROUGH))
+                '1 + number of line feeds before the faulty part; (k) attribute values: the prefix attribute of in / '
+                'tree (11 positions: with / without batch, sort, mapping, name= / expr= forms, inside an if, with an '
+                'else section; spelled prefix / PREFIX; quoted / unquoted; blank / tab / line-feed separators; three '
+                'syntaxes) over every kind of value: simple names (short, upper case, long), leading underscore(s), '
+                'underscores only, leading digit, only non-ASCII characters, and a simple name with a character of '
+                'each kind -- non-ASCII letter (every script, full-width, mathematical), non-ASCII digit / number, '
+                'combining mark, connector punctuation, symbol, non-ASCII space / format character, ASCII '
+                'punctuation, ASCII white space / control -- inserted or substituted at the first / an inner / the '
+                'last position: accepted iff ASCII letter followed by ASCII letters, digits, underscores (plain '
+                'Python reference), rejection = ParseError naming that tag on its line, accepted in blocks render '
+                '<prefix>_item / <prefix>_index over a 3-element sequence; the same values in attributes without a '
+                'lexical rule (null, fmt, missing, sort, size, start, mapping, let binding): must compile' % (PUMP_TIMEOUT if tier == 'quick' else PUMP_TIMEOUT_THOROUGH))
     cases = []
     n_t = 250 if tier == 'quick' else 4000
     for i in range(n_t):
@@ -1018,6 +1268,7 @@ def run(res, tier, have_driver):
     if n_timeouts < MAX_TIMEOUTS:
         run_else_layouts(res, tier, cases, one)
         run_located_faults(res, tier, cases, one)
+        run_attribute_values(res, tier, cases, one)
     # compile histories on one object: expected outcome = a fresh template object's (the stateless verdicts above)
     if n_timeouts < MAX_TIMEOUTS:
         n_timeouts = run_histories(res, tier, cases, results, one, n_timeouts)
@@ -1124,9 +1375,9 @@ def replay(path):
     dt = time.process_time() - t0
     rr.pop('blocks', None)
     fails = oracle(c['syntax'], c['src'], rr)
-    if c.get('origin') in ('valid', 'nest', 'layout-ok') and rr['status'] != 'ok':
+    if c.get('origin') in ('valid', 'nest', 'layout-ok', 'attrval-ok') and rr['status'] != 'ok':
         fails.append('a grammatical template was rejected')
-    if (c.get('origin') in ('nest-broken', 'layout-bad') or str(c.get('origin')).startswith('fault:')) and rr['status'] == 'ok':
+    if (c.get('origin') in ('nest-broken', 'layout-bad', 'attrval-bad') or str(c.get('origin')).startswith('fault:')) and rr['status'] == 'ok':
         fails.append('a source violating the tag grammar was accepted')
     if 'family' in c:
         print('family %s n=%s: %d characters, cpu %.3f s (recorded: %r)' % (c['family'], c.get('n'), len(c['src']), dt,
